@@ -1458,23 +1458,36 @@ class Process(StateMachine, persistence.Savable, metaclass=ProcessStateMachineMe
         namespace = output_port.split(namespace_separator)
         port_name = namespace.pop()
 
-        if namespace:
-            port_namespace = cast(
-                ports.PortNamespace,
-                self.spec().outputs.get_port(namespace_separator.join(namespace), create_dynamically=True),
-            )
-        else:
-            port_namespace = self.spec().outputs
+        # Walk down the declared port namespaces. Sub namespaces that are not declared are not added to the spec (which
+        # is shared by all processes of the class): what is emitted below them is validated as a nested dynamic value
+        port_namespace = self.spec().outputs
+        undeclared: List[str] = []
+        for sub_space in namespace:
+            if not undeclared and sub_space in port_namespace:
+                port_namespace = cast(ports.PortNamespace, port_namespace[sub_space])
+            else:
+                undeclared.append(sub_space)
+
+        if undeclared and not port_namespace.dynamic:
+            raise ValueError(f"port '{undeclared[0]}' does not exist in port namespace '{port_namespace.name}'")
 
         validation_error = None
-        try:
-            port = port_namespace[port_name]
-            dynamic = False
-            validation_error = port.validate(value)
-        except KeyError:
+        if undeclared:
             port = port_namespace
             dynamic = True
-            validation_error = port.validate_dynamic_ports({port_name: value})
+            nested_value = value
+            for key in reversed([*undeclared[1:], port_name]):
+                nested_value = {key: nested_value}
+            validation_error = port.validate_dynamic_ports({undeclared[0]: nested_value})
+        else:
+            try:
+                port = port_namespace[port_name]
+                dynamic = False
+                validation_error = port.validate(value)
+            except KeyError:
+                port = port_namespace
+                dynamic = True
+                validation_error = port.validate_dynamic_ports({port_name: value})
 
         if validation_error:
             msg = f"Error validating output '{value}' for port '{validation_error.port}': {validation_error.message}"
